@@ -85,7 +85,7 @@ func checkC04(c *core.Ctx) []core.Floor {
 	tr := core.NewRand(core.SubSeed(c.Seed, "C04T", 0))
 	for rep := 1; rep < 3; rep++ {
 		for _, t := range crashTemplates(tr) {
-			if t.timerOnly {
+			if t.timerOnly || t.prepare != nil {
 				// thousands of page writes per flush, an image before each: C02
 				// runs this template against the real timer instead
 				continue
